@@ -26,6 +26,7 @@ import (
 
 	"verifharness/internal/mpxh"
 	"verifharness/internal/poolrec"
+	"verifharness/internal/tscale"
 )
 
 type Event struct {
@@ -213,7 +214,7 @@ func buildRequest(run, id, script, n int) (*rpc.Request, error) {
 	return r, nil
 }
 
-const opTimeout = 10 * time.Second
+var opTimeout = tscale.D(10 * time.Second)
 
 func (e *env) call(cl rpc.Client, id, script, n int) {
 	defer func() {
@@ -247,7 +248,7 @@ func (e *env) call(cl rpc.Client, id, script, n int) {
 	case sSlow:
 		// the caller's own deadline expires while it waits for the response
 		e.rec.log(Event{E: "cb", I: id, Kind: "deadline"})
-		res, st := cl.Request(async.TimeoutContext(15*time.Millisecond), req)
+		res, st := cl.Request(async.TimeoutContext(15*time.Millisecond), req) // not scaled: it is meant to expire
 		var v int64
 		if st.OK() && res != nil {
 			v = res.Unwrap().Int64()
@@ -387,7 +388,7 @@ func runOnce(run int, rng *rand.Rand, rec *recorder, calls int, found func(sig, 
 		found("hang:run", "calls did not finish")
 	}
 	// oneway calls return before their handler ran: wait until every issued call reached the handler
-	deadline := time.Now().Add(3 * time.Second)
+	deadline := time.Now().Add(tscale.D(3 * time.Second))
 	for (int(e.hruns.Load()) < calls || e.hdone.Load() < e.hruns.Load()) && time.Now().Before(deadline) {
 		time.Sleep(time.Millisecond)
 	}
